@@ -69,11 +69,11 @@ CHECKS = {
  "C14": dict(engine="symnp", category="other", design_ref="DESIGN.md §3 C14", technique=E1 + "; svd / nuclear norm / rank / eigenvalue kernels uninterpreted, svd contract for the Schmidt decomposition", note=NOTE_E1 + KERN,
    text="negativity / log_negativity = stated function of the nuclear-norm kernel of the oracle's own partial transpose (vector and density input, dim list/int/omitted); Schmidt decomposition: "
         "the SVD argument is the amplitude matrix and, under the svd contract, the factors rebuild the state (unequal local dims); schmidt_rank / sk_vector_norm / is_product arguments; "
-        "l1 coherence, purity, entropy, concurrence, entanglement of formation (pure branch) as formulas of the right kernel arguments. sk_operator_norm: the returned bounds are compared, by QF_NRA queries over all coefficient vectors, with the values attained on explicit families of Schmidt-rank-<=k vectors (11 operators)."),
+        "l1 coherence, purity, entropy, concurrence, entanglement of formation (pure branch) as formulas of the right kernel arguments. sk_operator_norm: the returned bounds are compared, by QF_NRA queries over all coefficient vectors, with the values attained on explicit families of Schmidt-rank-<=k vectors (13 operators, two of them with the optimum at a lower Schmidt rank). Operator Schmidt rank and the operator product test also for non-square local factors and scalar dim."),
  "C16": dict(engine="symnp", category="other", design_ref="DESIGN.md §3 C16", technique=E1 + "; eigenvalue / rank / Cholesky / null-space kernels uninterpreted with contracts", note=NOTE_E1 + KERN,
    text="Each tolerance predicate: residuals within atol/2 => True, beyond 2(atol+rtol*magnitude) => False, exact-by-construction => True, invariance under the property-preserving "
         "transformations; exact-equivalence predicates as iff formulas; kernel predicates as the stated function of the right kernel argument; vec/unvec, vec(AXB), tensor associativity and powers, "
-        "Gram round trip under the Cholesky contract, commutant under the null-space contract, majorisation."),
+        "Gram round trip under the Cholesky contract, commutant under the null-space contract, majorisation. is_unextendible_product_basis: on concrete Gaussian-integer product families the definition (existence of a product vector orthogonal to every member) is decided by z3 in QF_LRA and compared with the real verdict and witness."),
  "C18": dict(engine="symnp", category="other", design_ref="DESIGN.md §3 C18", technique=E1 + " with a symbolic test vector; CrossHair (symbolic execution + z3) for unique_perms; complete enumeration of the finite spaces (perm_sign)", note=NOTE_E1 + "; projector entries lifted to exact k/p! (|err|<1e-12); orth kernel checked on the concrete output; CrossHair per-condition timeout",
    text="Symmetric / antisymmetric projectors for every (d,p) in the bound: idempotent, Hermitian, equal to the (signed) average of the oracle's own permutation maps, fixed / sign-flipped by every "
         "generator (all permutations in thorough), mutually orthogonal, summing to the identity for p=2, exact trace = binomial; isometry forms; perm_sign over all permutations of <=6 elements (enumeration); "
@@ -87,7 +87,7 @@ CHECKS = {
    note=NOTE_E1 + "; cvxpy evaluation trusted for extraction; v v^T and principal submatrices of PSD matrices are PSD and traces of PSD matrices are >= 0 (mathematical facts used by the certificates); the conic solver returns the optimum of the program it is handed",
    text="Classical value = max over all pairs of answer functions for every prob/pred tensor of the enumerated shapes (all entries symbolic), game object unchanged; product and BCS constructors; "
         "for every game of the listed shapes: every deterministic strategy is a feasible point of the real NPA program with its own value (classical <= NPA_k, k in 1,'1+ab',2), higher-level equalities "
-        "imply lower-level ones (NPA monotone in k), NPA constraints imply a non-signalling box and nonsignaling_value's program is the LP over such boxes (NPA <= NS <= 1); see-saw programs are the textbook POVM optimisations. Large games (512..2048 enumerated strategies, both the single-core loop and the multiprocessing branch): the dispatch of strategy indices is executed with process_iteration uninterpreted and the pool stubbed, z3 decides that the result is the maximum over every index; NPA / NS programs are also captured from an object that already answered classical_value()."),
+        "imply lower-level ones (NPA monotone in k), NPA constraints imply a non-signalling box and nonsignaling_value's program is the LP over such boxes (NPA <= NS <= 1); see-saw programs are the textbook POVM optimisations. Large games (512..2048 enumerated strategies, both the single-core loop and the multiprocessing branch): the dispatch of strategy indices is executed with process_iteration uninterpreted and the pool stubbed, z3 decides that the result is the maximum over every index; NPA / NS programs are also captured from an object that already answered classical_value(). Explicit quantum CHSH strategies (Gaussian-rational non-commuting qubit projectors, symbolic shared state) are proved feasible for the captured NPA program with their own value (quantum <= NPA_k for these strategies)."),
  "C17": dict(engine="symnp", category="other", design_ref="DESIGN.md §3 C17", technique=E1 + "; parameter-free constructors executed over exact algebraic numbers (sqrt / roots of unity as symbols with rewriting), float-lifted fallback where the code leaves exact arithmetic",
    note=NOTE_E1 + "; 'float-lifted' obligations (named in their cfg) compare exact binary rationals of the returned doubles within 1e-9; eigen-certificates use concrete projectors built in the harness",
    text="Parameterised constructors with symbolic parameters equal their closed forms (Werner scalar and list forms, isotropic, Horodecki, Gisin, Breuer, chessboard, GHZ / W coefficient forms); PPT thresholds of Werner / isotropic / "
@@ -104,7 +104,7 @@ CHECKS = {
    note="instance data of captured programs concrete (dyadic); cvxpy evaluation trusted for extraction; rho (x) v v^T is PSD for rho >= 0; strong duality and the conic solver trusted; lambda_max as uninterpreted LAPACK kernel; z3 5.1.0",
    text="Unentangled value = max over all pairs of answer functions of lambda_max (all entries symbolic); every unentangled strategy is a feasible point of the real NPA-with-referee program with its own value (unentangled <= NPA_k), "
         "NPA constraints imply the non-signalling assemblage conditions and nonsignaling_value's program is the textbook assemblage program (NPA_k <= NS); hedging and cloning primal / dual programs equal the textbook programs and the dual's embedding "
-        "is the adjoint of the primal's partial trace (so they are a dual pair), real and complex instances, 1 and 2 repetitions. The hedging programs are also captured after an earlier call on the same object (all ordered pairs of methods); the cloning primal/dual pair is checked as a Lagrangian pair (T2) for one and two repetitions."),
+        "is the adjoint of the primal's partial trace (so they are a dual pair), real and complex instances, 1 and 2 repetitions. The hedging programs are also captured after an earlier call on the same object (all ordered pairs of methods); the cloning primal/dual pair is checked as a Lagrangian pair (T2) for one and two repetitions. Explicit quantum strategies with non-commuting measurements and a symbolic shared state on A (x) B (x) R are proved feasible for the captured NPA-with-referee program with their own value, on two games with quantum advantage (real and complex referee projectors)."),
  "C15": dict(engine="symnp", category="other", design_ref="DESIGN.md §3 C15", technique=E1 + "; all LAPACK kernels uninterpreted; path exploration of the is_separable cascade; concrete-instance replays for the branches beyond the symbolic fragment",
    note=NOTE_E1 + KERN + "; beyond the spectrum sort of is_separable (argsort / orth / SDP) only a stated deterministic family of concrete product mixtures is run through the real code (labelled concrete-instance in the evidence)",
    text="is_ppt / is_npt verdict = 'every value of the eigenvalue kernel on the oracle's own partial transpose is >= -tol' for either party, dims 2x2..3x2 (3x3, 2x4 thorough), dim as list / int / omitted, tol symbolic; "
